@@ -78,6 +78,7 @@ type Term struct {
 	args []*Term
 	hasFP bool
 	hasDiv bool
+	hasBit bool
 }
 
 func (t *Term) IsConst() bool { return t.op == OConst }
@@ -132,9 +133,16 @@ func (c *TermCtx) mk(op Op, w uint8, val uint64, name string, args []*Term) *Ter
 		if a.hasDiv {
 			t.hasDiv = true
 		}
+		if a.hasBit {
+			t.hasBit = true
+		}
 	}
 	if op >= OFAdd {
 		t.hasFP = true
+	}
+	switch op {
+	case OBAnd, OBOr, OBXor, OBNot, OShl, OLShr, OAShr:
+		t.hasBit = true
 	}
 	if op == OUDiv || op == OSDiv || op == OURem || op == OSRem || op == OMul {
 		t.hasDiv = true
@@ -495,9 +503,71 @@ func (c *TermCtx) Eq(a, b *Term) *Term {
 	}
 	return c.op(OEq, 0, 0, a, b)
 }
+// ubound: a cheap upper bound on the unsigned value of t.
+func ubound(t *Term) uint64 {
+	switch t.op {
+	case OConst:
+		return t.val
+	case OURem:
+		if t.args[1].op == OConst && t.args[1].val > 0 {
+			return t.args[1].val - 1
+		}
+	case OZExt:
+		return ubound(t.args[0])
+	case OBAnd:
+		a, b := ubound(t.args[0]), ubound(t.args[1])
+		if a < b {
+			return a
+		}
+		return b
+	case OIte:
+		a, b := ubound(t.args[1]), ubound(t.args[2])
+		if a > b {
+			return a
+		}
+		return b
+	case OUDiv:
+		if t.args[1].op == OConst && t.args[1].val > 0 {
+			return ubound(t.args[0]) / t.args[1].val
+		}
+	}
+	return mask(t.w)
+}
+
 func (c *TermCtx) Cmp(op Op, a, b *Term) *Term {
 	if a.w != b.w {
 		panic(fmt.Sprintf("cmp width mismatch %d %d", a.w, b.w))
+	}
+	if b.op == OConst && a.op != OConst {
+		switch op {
+		case OUlt:
+			if ubound(a) < b.val {
+				return c.True
+			}
+		case OUle:
+			if ubound(a) <= b.val {
+				return c.True
+			}
+		case OSlt, OSle:
+			// both non-negative as signed => same as unsigned
+			if ub := ubound(a); ub < uint64(1)<<(a.w-1) && b.val < uint64(1)<<(a.w-1) {
+				if op == OSlt && ub < b.val || op == OSle && ub <= b.val {
+					return c.True
+				}
+			}
+		}
+	}
+	if a.op == OConst && b.op != OConst {
+		switch op {
+		case OUlt:
+			if ubound(b) <= a.val {
+				return c.False
+			}
+		case OUle:
+			if ubound(b) < a.val {
+				return c.False
+			}
+		}
 	}
 	if a == b {
 		if op == OUle || op == OSle {
